@@ -376,6 +376,21 @@ func runCellOnce(rep *hx.Report, r *rand.Rand, iomod int, emode int, nconn, ntls
 	for k := 0; k < nconn+ntls; k++ {
 		specs := genConn(r)
 		seed := r.Int63()
+		// a DEEP pipeline on the first plain connection of most cells: hundreds of small requests in one burst queued up
+		// behind a handler that takes its time (the per-connection job list grows far beyond what a shallow pipeline
+		// reaches); drawn from a generator of its own, the other connections' scripts stay what they were
+		if dr := rand.New(rand.NewSource(seed ^ 0xdee9)); k == 0 && dr.Intn(4) != 0 {
+			depth := []int{127, 128, 129, 130, 131, 200, 257, 400, 513}[dr.Intn(9)] + dr.Intn(3)
+			specs = nil
+			for i := 0; i < depth; i++ {
+				s := reqSpec{I: i, N: []int{0, 1, 100, 3000}[dr.Intn(4)], M: []string{"cl", "multi", "one"}[dr.Intn(3)], Minor: 1}
+				if i == 0 {
+					s.D = 100 + dr.Intn(200)
+				}
+				specs = append(specs, s)
+			}
+			rep.Stat("deep-pipeline-connection")
+		}
 		id, tr, a := k, transport{}, addr
 		if k >= nconn {
 			id, tr, a = 100+k-nconn, genTransport(r), addrTLS
